@@ -122,24 +122,28 @@ def parseLines : List Str → Outcome (List Stmt)
     | .internal => .internal
     | .diverged => .diverged
 
-/-- `process_mnemonics`: INCLUDE expansion. A missing file is FileNotFoundError (`internal`); the Python
-recursion has no cycle check, so fuel exhaustion stands for RecursionError (`internal`). -/
-def expand (fs : Files) : Nat → List Stmt → Outcome (List Stmt)
-  | 0, _ => .internal
-  | fuel + 1, stmts =>
+/-- `process_mnemonics(statements, including)`: INCLUDE expansion (after the repair: a file that cannot be read
+and a file that is already being included are TranslationErrors). `including` is the chain of files currently
+being processed. The Python recursion is bounded by the number of distinct files; fuel exhaustion (more than
+64 nested distinct files) stands for RecursionError (`internal`). -/
+def expand (fs : Files) : Nat → List Str → List Stmt → Outcome (List Stmt)
+  | 0, _, _ => .internal
+  | fuel + 1, including, stmts =>
     let rec go : List Stmt → Outcome (List Stmt)
       | [] => .ok []
       | s :: rest =>
         if s.row.isInclude && !s.operand.text.isEmpty then
-          match fs.get? s.operand.text with
-          | none => .internal
-          | some lines =>
-            match parseLines lines with
-            | .ok inc =>
-              match expand fs fuel inc with
-              | .ok e => (match go rest with | .ok r => .ok (e ++ r) | o => o)
+          if including.contains s.operand.text then .diag            -- "[f] includes itself"
+          else
+            match fs.get? s.operand.text with
+            | none => .diag                                           -- "Unable to read [f]"
+            | some lines =>
+              match parseLines lines with
+              | .ok inc =>
+                match expand fs fuel (including ++ [s.operand.text]) inc with
+                | .ok e => (match go rest with | .ok r => .ok (e ++ r) | o => o)
+                | o => o
               | o => o
-            | o => o
         else (match go rest with | .ok r => .ok (s :: r) | o => o)
     go stmts
 
@@ -413,7 +417,7 @@ def finalSymTab (ss : List Stmt) : SymTab → Outcome SymTab
 def assemble (fs : Files) (lines : List Str) : Outcome Assembly :=
   match parseLines lines with
   | .ok parsed =>
-    match expand fs 64 parsed with
+    match expand fs 64 [] parsed with
     | .ok ss0 =>
       match buildSymTab ss0 0 [] with
       | none => .diag
